@@ -668,6 +668,20 @@ func genIP(rng *rand.Rand) []byte {
 		b[rng.IntN(12)] ^= byte(1 << rng.IntN(8))
 		return b
 	case 10:
+		if rng.IntN(2) == 0 {
+			// a well-formed 16-byte value (mapped IPv4, plain IPv6) cut or padded to every length
+			// around the legal ones: a form recognised by its leading bytes must still be
+			// rejected when the length is wrong
+			full := append(append([]byte{}, mappedPrefix...), randBytes(rng, 4)...)
+			if rng.IntN(3) == 0 {
+				full = randBytes(rng, 16)
+			}
+			k := rng.IntN(21)
+			if k <= 16 {
+				return full[:k]
+			}
+			return append(full, make([]byte, k-16)...)
+		}
 		return make([]byte, pick(rng, 4, 16, 0))
 	case 11:
 		return bytes.Repeat([]byte{0xff}, pick(rng, 4, 16))
@@ -701,6 +715,17 @@ func genMask(rng *rand.Rand, iplen int) []byte {
 		l = rng.IntN(21)
 		return []byte(net.CIDRMask(rng.IntN(l*8+1), l*8))
 	case 3:
+		if rng.IntN(3) != 0 {
+			// whole 0xff bytes, then ONE byte that is not a run of leading ones (a stray low bit,
+			// a hole), then zeros: the ones end on a byte boundary and the defect sits right behind it
+			m := make([]byte, l)
+			k := rng.IntN(l)
+			for i := 0; i < k; i++ {
+				m[i] = 0xff
+			}
+			m[k] = byte(pick(rng, 0x01, 0x02, 0x0f, 0x10, 0x40, 0x7f, 0x55, 0xbf, 0xdf, 0xfd, 0x81))
+			return m
+		}
 		return []byte{0xff, 0x00, 0xff, 0x00}
 	case 4:
 		return randBytes(rng, l)
